@@ -722,7 +722,14 @@ def flatten(prog, fi, accept=None):
     if key in cache:
         return cache[key]
     fl = Flattener(prog, fi, accept)
-    node = fl.run()
+    try:
+        node = fl.run()
+    except RecursionError:
+        raise
+    except Exception:
+        # the transformation is an aid, never a requirement: on anything unforeseen the function is analysed as written
+        cache[key] = fi
+        return fi
     if not fl.inlined:
         out = fi
     else:
